@@ -153,10 +153,11 @@ def run(prop, tier):
     if prop == "C14" and summ["ok14"] < 32:
         raise NoVerdict("vacuous: only %d successful NewReqParam calls" % summ["ok14"])
     nval = judge(prop, verdict, recs, conf[tier], drift)
-    for d in drift[:12]:
-        log("SPEC-DRIFT (precise design only; no listed property rejects it): %s %s" % (vkey(d["e"]), describe(d)[:500]))
-    if len(drift) > 12:
-        log("SPEC-DRIFT: %d further strict-only mismatches" % (len(drift) - 12))
+    dk = {}
+    for d in drift:
+        dk.setdefault(vkey(d["e"]), []).append(d)
+    for k, ds in dk.items():
+        log("SPEC-DRIFT (precise design only; no listed property rejects it): %d recorded call(s) with key '%s', e.g. %s" % (len(ds), k, describe(ds[0])[:500]))
     samples = []
     seen = set()
     for x in steps:
